@@ -383,6 +383,7 @@ def _b_hmac_digest(self, ex, p, node, h):
 
 def _spec_call(self, sp, name, args, ctx):
     """library functions available in specification expressions"""
+    args = [a.val if isinstance(a, VOpt) else a for a in args]
     if name == 'hasher_index':
         return VInt(args[0].z)
     if name == 'digest_size':
@@ -395,6 +396,13 @@ def _spec_call(self, sp, name, args, ctx):
         return VBytes(fn_aes_enc(args[0].z, args[1].z, args[2].z))
     if name == 'aes_dec':
         return VBytes(fn_aes_dec(args[0].z, args[1].z, args[2].z))
+    if name == 'as_payload':
+        t = TRec('Payload')
+        return from_z3(to_z3(args[0], t), t)
+    if name == 'class_tag':
+        r = RECS[args[0].name]
+        rec_sort(args[0].name)
+        return VInt(r.acc['cls__'](args[0].z))
     if name in ('is_a', 'as_a'):
         v, nm = args
         m = nm.conc()
